@@ -762,6 +762,27 @@ Definition hygb (sp : spec) : bool :=
   params_ok (sp_params sp) && deps_ok sp
   && match plan sp with Some um => naming_ok sp um | None => true end.
 
+(* ---- signatures of the known findings outside H8 --------------------------- *)
+(** K2: two rows of one step that differ on a used parameter get the same
+    instance name (labels are joined by "." without escaping) *)
+Definition sig_label_join (sp : spec) : bool :=
+  match plan sp with Some um => negb (sharing_ok sp um) | None => false end.
+
+(** K2b: an instance name of a parameterised step equals a step name, or two
+    different steps have an instance name in common (step ++ "_" ++ combination
+    is not escaped either) *)
+Definition sig_name_clash (sp : spec) : bool :=
+  match plan sp with
+  | Some um =>
+      let il := inst_list sp um in
+      negb (forallb (fun a => forallb (fun b =>
+              implb (str_eqb (inst_name sp um a) (inst_name sp um b))
+                    (str_eqb (s_name (fst a)) (s_name (fst b)))) il) il
+            && forallb (fun a => is_nil (used_in um (s_name (fst a)))
+                                 || negb (str_mem (inst_name sp um a) (SOURCE :: step_names sp))) il)
+  | None => false
+  end.
+
 (* ---- the same, as propositions (vocabulary of the theorems) ----------------- *)
 Definition kids_of (g : graph) (p : str) : list str :=
   match g_find p g with Some nd => nd_kids nd | None => [] end.
@@ -797,3 +818,5 @@ Definition c08_agree (c : spec * result obs) : bool :=
 Definition c08_monitor (c : spec * result obs) : bool := C08_ok (fst c) (snd c).
 Definition c08_case (c : spec * result obs) : bool := c08_agree c && c08_monitor c.
 Definition c08_hyg (c : spec * result obs) : bool := hygb (fst c).
+Definition c08_sig_k2 (c : spec * result obs) : bool := negb (sig_label_join (fst c)).
+Definition c08_sig_k2b (c : spec * result obs) : bool := negb (sig_name_clash (fst c)).
